@@ -8,7 +8,9 @@ Import ListNotations.
 Definition ringF := @ring float unit.
 Definition obsF := @obs float unit.
 
-(* interpolation codes: 0 previous 1 next 2 nearest 3 linear 4 expdecay(par) 5 expratedecay(par) *)
+(* interpolation codes: 0 previous 1 next 2 nearest 3 linear 4 expdecay(par) 5 expratedecay(par);
+   6, 7: probe interpolations of the harness (not shipped kernels) that make the decision observable:
+   6 returns the older sample + 100, 7 the newer sample + 300 (an exact read returns the bare sample) *)
 Definition interp_of (code : Z) (par : float) : interp_fn FN :=
   match code with
   | 0%Z => interp_previous FN
@@ -16,7 +18,9 @@ Definition interp_of (code : Z) (par : float) : interp_fn FN :=
   | 2%Z => interp_nearest FN
   | 3%Z => interp_linear FN
   | 4%Z => fun p n sa st => interp_expdecay FN p n sa st par
-  | _ => fun p n sa st => interp_expratedecay FN p n sa st par
+  | 5%Z => fun p n sa st => interp_expratedecay FN p n sa st par
+  | 6%Z => fun p n sa st => (p + 100)%float
+  | _ => fun p n sa st => (n + 300)%float
   end.
 (* extrapolation codes: 0 previous 1 next 2 neighbors 3 nearest 4 linear_forward 5 linear_backward
    6 expdecay(par) 7 expratedecay(par); for 4/5: par = 0 -> adjust None, otherwise adjust = (x |-> x * par) *)
@@ -36,6 +40,7 @@ Definition extrap_of (code : Z) (par : float) : extrap_fn FN :=
 
 Inductive sop :=
 | SPush (el : list float)
+| SFill (rows : list (list float))      (* many pushes, one trace entry *)
 | SIncr (k : Z)
 | SSelS (tol : float) (off : Z) (t : float) (ic : Z) (par : float)
 | SSelT (tol : float) (off : Z) (tnd : nat) (times : list (list float)) (ic : Z) (par : float)
@@ -46,6 +51,11 @@ Inductive sop :=
 Definition sstep (dt : float) (shape : list nat) (s : ringF) (o : sop) : @result float unit :=
   match o with
   | SPush el => push (castU FN) 0%float s (mkObs tt shape el) true
+  | SFill rows =>
+      fold_left (fun r el => match r with
+                             | Ok s' _ => push (castU FN) 0%float s' (mkObs tt shape el) true
+                             | Err e => Err e
+                             end) rows (Ok s OUnit)
   | SIncr k => incr s k
   | SSelS tol off t ic par => select_scalar FN s dt tol off t (interp_of ic par)
   | SSelT tol off tnd times ic par => select_tensor FN s dt tol off tnd times (interp_of ic par)
@@ -82,3 +92,19 @@ Fixpoint trace (dt : float) (shape : list nat) (s : ringF) (ops : list sop) : li
   end%Z.
 Definition run_case (n : nat) (dt : float) (shape : list nat) (ops : list sop) : tree :=
   Nd (trace dt shape (mkRing n 0 SNone) ops).
+
+(* long records: the state is serialised only after the operations that can change it (a select returns
+   the record it was given, by construction of the model) *)
+Definition changes (o : sop) : bool :=
+  match o with SSelS _ _ _ _ _ | SSelT _ _ _ _ _ _ => false | _ => true end.
+Fixpoint trace_lite (dt : float) (shape : list nat) (s : ringF) (ops : list sop) : list tree :=
+  match ops with
+  | [] => []
+  | o :: tl =>
+      match sstep dt shape s o with
+      | Ok s' out => Nd [Nd [L 0; ser_out out]; if changes o then ser_state s' else Nd []] :: trace_lite dt shape s' tl
+      | Err e => Nd [Nd [L 1; ser_err e]; Nd []] :: trace_lite dt shape s tl
+      end
+  end%Z.
+Definition run_case_lite (n : nat) (dt : float) (shape : list nat) (ops : list sop) : tree :=
+  Nd (trace_lite dt shape (mkRing n 0 SNone) ops).
